@@ -54,6 +54,26 @@ CLAIMED = {
              text="The family of boundary-shifted and prefix-related triples is enumerated, not sampled; the real derivation must reproduce exactly the model's equality classes, with independent clients and differing associated data.",
              note="Ideal hash; strings longer than two symbols and other thresholds are covered only through the valuations (symbol images up to 700 bytes).",
              ref="5/C04"),
+ "C08": dict(level="fault_enumeration", technique="Wire.tla (the three layouts as TLA+ functions, canonical elements via Fp129) is the independent parser: MC_WireFaults enumerates faulted encodings with verdicts replayed into the real decoders; Trace_Wire re-parses every logged decoder call (honest values, all prefixes, byte faults, splices, random strings) in TLC",
+             text="The fault space of the layout (truncations, every header x boundary values, non-canonical elements, trailing bytes, fault pairs) is enumerated by the model checker and every real decoder call is cross-checked against the TLA+ parser on accept/reject and canonical re-encoding.",
+             note="Length headers >= 2^31 form one class in the TLA+ parser (32-bit TLC integers). Byte faults at every offset only in the thorough tier.",
+             ref="5/C08"),
+ "C09": dict(level="fault_enumeration", technique="the MC_WireFaults enumeration plus degenerate-value classes (all truncations, 18 header values at every header, shares without y, thresholds 0/1/2^32-1, undecodable points in every position, missing proofs, malformed base64 lines) executed under catch_unwind against every listed entry point; the TLA+ parser's verdict is the expected failure result",
+             text="Panic-freedom is decided by enumerating the structurally distinct malformed and degenerate inputs per entry point; the specification says which of them must be rejected through the function's own failure value.",
+             note="catch_unwind sees panics, not aborts/OOM. Seven genuine defects found this way were repaired in /repo (fix: commits, see known_findings.json).",
+             ref="5/C09"),
+ "C12": dict(level="model_checking", technique="symbolic group algebra of PPOPRF.tla (blinding scalars cancel) model-checked over all small configurations (MC_Oprf: Oblivious, Separated, BlindFresh); equality-pattern conformance of real blind/eval/unblind/finalize over servers x tags x inputs x OS blindings",
+             text="The dependence of the output on exactly (server key, tag, input) is an algebraic invariant checked exhaustively on the symbolic model and bound to the code by comparing equality classes of real outputs across many independent blindings.",
+             note="Ideal group and hash; unlinkability is the structural statement 'fresh, pairwise distinct, different from H(x)'.",
+             ref="5/C12"),
+ "C13": dict(level="fault_enumeration", technique="MC_Oprf enumerates every (component, class) substitution into an honest verifiable evaluation with the ideal-DLEQ verdict (ProofComplete, ProofSound, NonceFresh); each case realised in several byte-level variants on the real Client::verify; commitment recomputation for nonce freshness",
+             text="Soundness against tampering is a fault enumeration over the components of the verification equation with the verdict supplied by the specification; completeness also across serialisation; nonce reuse is detected by recomputing commitments.",
+             note="Ideal DLEQ (accepts exactly the issued statement); batch proofs over several points are not exercised through the public API (eval issues single-point proofs).",
+             ref="5/C13"),
+ "C15": dict(level="fault_enumeration", technique="Wire.tla DecPk/DecProof (bincode layouts, size caps, canonical scalars) re-parse every logged loader call in TLC (Trace_Wire); 'restored' cases of the MC_Oprf enumeration and serde-check compare restored values with originals and in verification",
+             text="Round-trip equality and interchangeability are checked on real values over all tag-set sizes; the loaders are cross-checked against an independent TLA+ parser on prefixes, byte faults, both caps +-1, inflated counts and non-canonical scalars.",
+             note="JSON forms are checked by round trip and a list of malformed documents, not by an independent JSON parser.",
+             ref="5/C15"),
 }
 NA_REASON = "check not built yet in this round (planned: see DESIGN.md section 5); not claimed until its machinery exists"
 
